@@ -24,7 +24,7 @@ COQTY = {"f32": "CFloat F32", "f64": "CFloat F64", "bool": "CBool", "bytes": "CB
 COQTY.update({k: "CInt " + v for k, v in {"i8": "I8", "u8": "U8", "i16": "I16", "u16": "U16", "i32": "I32", "u32": "U32", "i64": "I64", "u64": "U64",
                                            "isize": "Isize", "usize": "Usize"}.items()})
 KW = [b"INF", b"INFinity", b"infinity", b"inf", b"InFiNiTy", b"NINF", b"NINFinity", b"ninfinity", b"NAN", b"nan", b"MAX", b"MAXimum", b"maximum", b"MIN", b"MINimum", b"min",
-      b"INF1", b"NINF1", b"NAN1", b"MAX1", b"minimum1", b"INFI", b"INFINIT", b"INFINITYY", b"NA", b"NANN", b"MA", b"MAXI", b"MINIMU", b"DEF", b"UP", b"ON", b"OFF", b"INF2", b"INF01", b"INVALID"]
+      b"INF1", b"NINF1", b"NAN1", b"MAX1", b"minimum1", b"INFI", b"INFINIT", b"INFINITYY", b"NA", b"NANN", b"MA", b"MAXI", b"MINIMU", b"DEF", b"UP", b"ON", b"OFF", b"INF2", b"INF01", b"INVALID", b"NANa", b"NAN_", b"NANumber", b"INFx", b"MAXa", b"MINIMUMa", b"NINFa", b"INFINITYa"]
 ELEMS = [b"ABC", b"ON", b"1", b"-1.5e3", b"1 V", b"2.5 KHZ", b"#HFF", b"#B101", b"'str'", b"\"s\"\"q\"", b"#13abc", b"#12\xc3\xa9", b"#12\xff\xfe", b"#14\xf0\x9f\x98\x80",
          b"#13\xed\xa0\x80", b"#12\xc0\xaf", b"#10", b"(1,2)", b"(@1!2)", b"''", b"MAX", b"NAN", b"0", b"#13\xe2\x82\xac", b"#12\xe2\x82"]
 BOOLS = [b"ON", b"on", b"On", b"oN", b"OFF", b"off", b"Off", b"ONN", b"O", b"OF", b"TRUE", b"1", b"0", b"-1", b"2", b"0.0", b"-0.0", b"0.4", b"0.5", b"-0.5", b"-0.4", b"0.49999",
